@@ -26,6 +26,8 @@ analysis procedures.
 
 .. moduleauthor:: Tom Dimiduk <tdimiduk@physics.harvard.edu>
 """
+import inspect
+
 import numpy as np
 import yaml
 
@@ -71,12 +73,19 @@ class HoloPyObject(Serializable):
         return dict(self._iteritems())
 
     def _iteritems(self):
+        defaults = inspect.signature(self.__init__).parameters
         for var in self.__init__.__code__.co_varnames[1:]:
             if getattr(self, var, None) is not None:
                 item = getattr(self, var)
                 if isinstance(item, np.ndarray) and item.ndim == 1:
                     item = list(item)
                 yield var, item
+            elif (hasattr(self, var) and var in defaults
+                  and defaults[var].default is not None
+                  and defaults[var].default is not inspect.Parameter.empty):
+                # an explicit None must be written when leaving the argument
+                # out would select a different (non-None) default on reload
+                yield var, None
 
     @classmethod
     def to_yaml(cls, dumper, data):
